@@ -72,7 +72,7 @@ def oracle_core(n, b, mdi, thr, scores, cps, score_fn, exact=True, tol=0.0):
     """scores: list of numbers; score_fn(s, k, e) -> number"""
     for t in range(n):
         want = score_fn(t - b, t, t + b) if b <= t <= n - b else 0
-        if (scores[t] != want) if exact else (abs(scores[t] - want) > tol * (1 + abs(want))):
+        if (scores[t] != want) if exact else (not abs(scores[t] - want) <= tol * (1 + abs(want))):
             return f"score at t={t} is {scores[t]}; the change score between X[{t - b}:{t}] and X[{t}:{t + b}] is {want}"
     above = [s > thr for s in scores]
     runs, t = [], 0
@@ -196,12 +196,12 @@ def oracle_builtin(case, r):
     msg = oracle_core(n, b, case["mdi"], r["thr"], r["scores"], r["cps"], lambda s, k, e: tab[str(k)], exact=True)
     if msg:
         return msg
-    if r["scale"] is not None and abs(r["thr"] - r["scale"] * r["default_thr"]) > 1e-12 * (1 + abs(r["thr"])):
+    if r["scale"] is not None and not abs(r["thr"] - r["scale"] * r["default_thr"]) <= 1e-12 * (1 + abs(r["thr"])):
         return f"threshold_ {r['thr']} is not threshold_scale x default"
     # time reversal: scores at t map to n - t (0 < t < n); rounding-level tolerance
     big = 1 + max(abs(v) for v in r["scores"])
     for t in range(1, n):
-        if abs(r["scores_rev"][t] - r["scores"][n - t]) > 1e-9 * big:
+        if not abs(r["scores_rev"][t] - r["scores"][n - t]) <= 1e-9 * big:
             return f"reversing the series maps the score at t={n - t} ({r['scores'][n - t]!r}) to {r['scores_rev'][t]!r} at n-t={t}"
     # changepoints: compared only where every decision has a margin (threshold and run maxima)
     margin = 1e-7 * big
